@@ -21,6 +21,17 @@ macro_rules! bi_impl {
             };
             match c.op {
                 "bproj" => format!("OK {:x}", w(0).projection().to_bits()),
+                // style "alias": one object is receiver and argument (the numbers still carry both operands, equal)
+                "bmul" | "bcomul" | "bcfuse" | "bafuse" | "bwfuse" if c.style == "alias" => {
+                    let a = w(0);
+                    match c.op {
+                        "bmul" => show(&a.mul(&a)),
+                        "bcomul" => show(&a.comul(&a)),
+                        "bcfuse" => res(a.cfuse(&a)),
+                        "bafuse" => res(a.afuse(&a, x[8])),
+                        _ => res(a.wfuse(&a, x[8])),
+                    }
+                }
                 "bmul" => show(&w(0).mul(&w(4))),
                 "bcomul" => show(&w(0).comul(&w(4))),
                 "bcfuse" => res(w(0).cfuse(&w(4))),
